@@ -510,6 +510,10 @@ func c04Gen(r *rand.Rand) *c04Case {
 		c.CfgName, c.CfgYAML, c.Effective, c.Exact = "absent", "-", evasionCfg{}, true
 	case 6:
 		c.CfgName, c.CfgYAML, c.Effective, c.Exact = "empty-file", "", evasionCfg{}, true
+		if core.Chance(r, 1, 2) {
+			// a document that holds nothing: a marker and comments, the null scalar, a mapping without values
+			c.CfgName, c.CfgYAML = "null-document", core.Pick(r, "---\n# patterns:\n#   anti_evasion:\n#     unix: x\n", "~\n", "null\n", "---\n...\n", "patterns:\n", "patterns: ~\n", "patterns:\n  anti_evasion:\n", "# only a comment\n")
+		}
 	case 7:
 		part := evasionCfg{Unix: "_eu_", SuffixWindows: "_sw_"}
 		c.CfgName, c.Effective, c.Exact = "partial-keys", part, true
